@@ -1,14 +1,14 @@
 SPECIFICATION Spec
 CONSTANTS
-  Catalogue <- CatH1
+  Catalogue <- CatNone
   DiskC = "A"
   DiskR = "A"
-  Feat = {"health", "msg", "stop"}
-  Feeds <- FeedsOne
-  MaxCum = 0
+  Feat = {"usage"}
+  Feeds <- FeedsAll
+  MaxCum = 1
   Steps = {1}
-  Outcomes = {}
-  ZeroReports = "keys"
+  Outcomes = {"ok"}
+  ZeroReports = "never"
   RetryFailed = TRUE
   Faithful = TRUE
 INVARIANTS TypeOK AppliedIsInForce FailedIsRefused EffectiveInForce Conservation NoDoubleCount StopUnhealthy
